@@ -6,6 +6,8 @@ import (
 	"fmt"
 	"math/rand"
 	"sort"
+	"sync/atomic"
+	"time"
 
 	"github.com/onflow/atree"
 	tu "github.com/onflow/atree/test_utils"
@@ -16,10 +18,10 @@ import (
 
 type c14Inject struct {
 	commitIdx  int
-	k          int  // 1-based position of the failing ledger write/delete in the first attempt
+	k          int   // 1-based position of the failing ledger write/delete in the first attempt
 	ks         []int // positions failing in the successive retries (empty = first retry succeeds)
-	apply      bool // the failing call takes effect although it reports failure
-	retryLater bool // do not retry immediately: continue the history and commit later
+	apply      bool  // the failing call takes effect although it reports failure
+	retryLater bool  // do not retry immediately: continue the history and commit later
 }
 
 type c14Plan struct {
@@ -40,6 +42,34 @@ type c14Out struct {
 	final   map[atree.SlabID][]byte
 	w       *World
 	stats   map[string]int
+}
+
+// Bounded progress for "a commit whose ledger write failed returns": a faulted commit of these small write sets takes
+// well under a millisecond. It is waited for 60 s; if that expires the SAME scenario is repeated from scratch with 120 s,
+// and only a second expiry is a violation (commit-hang); a single one is a counter. After a reported hang the process
+// stops enumerating (every further probe would cost minutes and the verdict is already there).
+var (
+	c14Limit         = 60 * time.Second
+	errCommitTimeout = errors.New("verif: faulted commit did not return within the limit")
+	c14HangSeen      int64
+)
+
+// c14Bounded runs one injected scenario with the two-stage limit.
+func c14Bounded(plan *c14Plan, inj *c14Inject, twin *c14Out, obs map[string]int) (*c14Out, error) {
+	c14Limit = 60 * time.Second
+	out, err := c14Run(plan, inj, twin)
+	if err != errCommitTimeout {
+		return out, err
+	}
+	obs["commit-first-stage-timeouts"]++
+	c14Limit = 120 * time.Second
+	out, err = c14Run(plan, inj, twin)
+	c14Limit = 60 * time.Second
+	if err == errCommitTimeout {
+		atomic.StoreInt64(&c14HangSeen, 1)
+		return out, viol("commit-hang", "the commit did not return after ledger write %d failed (twice: 60 s, then 120 s on a fresh storage; normal duration is below a millisecond)", inj.k)
+	}
+	return out, err
 }
 
 // c14Run executes the planned history. With inj == nil it is the fault-free twin.
@@ -108,11 +138,21 @@ func c14Run(plan *c14Plan, inj *c14Inject, twin *c14Out) (*c14Out, error) {
 				return false, false
 			}
 			w.led.inCommit = true
+			// "the commit reports an error" includes that it returns: the call runs on its own goroutine and is waited
+			// for with a limit four orders of magnitude above its normal duration (see c14Bounded)
+			errc := make(chan error, 1)
+			go func() {
+				if plan.relaxed {
+					errc <- w.ps.NondeterministicFastCommit(plan.workers)
+				} else {
+					errc <- w.ps.FastCommit(plan.workers)
+				}
+			}()
 			var err error
-			if plan.relaxed {
-				err = w.ps.NondeterministicFastCommit(plan.workers)
-			} else {
-				err = w.ps.FastCommit(plan.workers)
+			select {
+			case err = <-errc:
+			case <-time.After(c14Limit):
+				return errCommitTimeout // the world is abandoned (the commit goroutine may still hold it)
 			}
 			w.led.inCommit = false
 			w.led.FailWrite = nil
@@ -249,6 +289,11 @@ func runC14(c *CaseCtx) *CaseResult {
 	}
 	res := &CaseResult{Stats: newStats(), Obs: map[string]int{}}
 	res.Config = map[string]any{"kind": plan.kind, "slab_size": plan.slab, "ops": plan.ops, "relaxed_commit": plan.relaxed, "workers": plan.workers, "owners": plan.owners}
+	if atomic.LoadInt64(&c14HangSeen) != 0 {
+		res.Obs["cases-skipped-after-a-reported-hang"]++
+		res.Hash = uint64(c.Case)
+		return res
+	}
 	twin, err := c14Run(plan, nil, nil)
 	fail := func(err error, what string) *CaseResult {
 		if v, ok := err.(*Violation); ok {
@@ -282,7 +327,7 @@ func runC14(c *CaseCtx) *CaseResult {
 					if later && j == ncommits-1 {
 						continue // nothing follows the final commit
 					}
-					out, err := c14Run(plan, inj, twin)
+					out, err := c14Bounded(plan, inj, twin, res.Obs)
 					evals++
 					for kk, v := range out.stats {
 						res.Obs[kk] += v
@@ -312,7 +357,7 @@ func runC14(c *CaseCtx) *CaseResult {
 					}
 					for _, ks := range seqs {
 						inj := &c14Inject{commitIdx: j, k: k, ks: ks}
-						out, err := c14Run(plan, inj, twin)
+						out, err := c14Bounded(plan, inj, twin, res.Obs)
 						evals++
 						for kk, v := range out.stats {
 							res.Obs[kk] += v
@@ -353,7 +398,7 @@ func (f *idForcer) Store(id atree.SlabID, s atree.Slab) error { f.slab = s; retu
 func (f *idForcer) Retrieve(atree.SlabID) (atree.Slab, bool, error) {
 	return nil, false, nil
 }
-func (f *idForcer) RetrieveIfLoaded(atree.SlabID) atree.Slab            { return nil }
+func (f *idForcer) RetrieveIfLoaded(atree.SlabID) atree.Slab           { return nil }
 func (f *idForcer) Remove(atree.SlabID) error                          { return nil }
 func (f *idForcer) GenerateSlabID(atree.Address) (atree.SlabID, error) { return f.id, nil }
 func (f *idForcer) Count() int                                         { return 0 }
